@@ -111,3 +111,25 @@ prop("C18", level="proof", bounded=[],
                  "when capture is off; fresh per-scenario buffers); logging handler install/remove pairing proved as ghost "
                  "count; LoggingCapture internals, report text and real process streams are bounded (child processes)",
      notes=["sys.stdout/sys.stderr are modelled as two fields of a process-wide singleton object"])
+
+# -- LoggingCapture.abandon: the root logger gets its level back, the capture handler is gone ------------------------------
+from pyvc.contracts import global_const as _gc
+L = "behave.log_capture:"
+shape("RootLogger", handlers="seq:any", level="any")
+shape("LoggingCapture", old_level="any", old_handlers="seq:any", config="ref:Configuration", level="any")
+shape("Configuration", logging_clear_handlers="bool")
+contract("abs:logging.getLogger.root", trusted=True, pos_params=[], pure=True, result="ref:RootLogger",
+         ensures={"the-root-logger": "result is the_root_logger()"}, doc="logging.getLogger(): the process-wide root logger (A-lib)")
+oracle("the_root_logger", [], "val")
+contract("abs:RootLogger.setLevel", trusted=True, params={"self": "ref:RootLogger"}, pos_params=["self", "level"],
+         modifies=["self.level"], ensures={"level-set": "self.level == level"}, doc="Logger.setLevel (A-lib)")
+contract("abs:Logger.addHandler", trusted=True, pos_params=["self", "handler"], modifies=["lists"], doc="Logger.addHandler (A-lib)")
+ROOT = "as_ref(the_root_logger(), 'RootLogger')"
+contract(L + "LoggingCapture.abandon", props=["C18"], params={"self": "ref:LoggingCapture"}, self_classes=["LoggingCapture"],
+         callsites={"logging.getLogger": "abs:logging.getLogger.root", "logger.addHandler": "abs:Logger.addHandler"},
+         modifies=["self.old_level", "*.level", "lists", "dicts"], allow_raises=["ValueError"],
+         loops=[Loop(invariant={"level": "%s.level == old(%s.level) and self.old_level == old(self.old_level)" % (ROOT, ROOT)}),
+                Loop(invariant={"level": "%s.level == old(%s.level) and self.old_level == old(self.old_level)" % (ROOT, ROOT)})],
+         ensures={"saved-level-restored-whatever-its-value":
+                  "implies(not is_none(old(self.old_level)), %s.level == old(self.old_level) and is_none(self.old_level))" % ROOT,
+                  "nothing-saved-nothing-changed": "implies(is_none(old(self.old_level)), %s.level == old(%s.level))" % (ROOT, ROOT)})
